@@ -54,6 +54,18 @@ public class BigRat {
       BigInteger[] qr = n.divideAndRemainder(d);
       return (qr[1].signum() < 0) ? qr[0].subtract(BigInteger.ONE) : qr[0];
     }
+    // round(this * o, bits) without normalising the intermediate product
+    Q mulRound(Q o, int bits) {
+      BigInteger pn = n.multiply(o.n), pd = d.multiply(o.d);
+      if (bits >= 0) {
+        BigInteger sc = pn.shiftLeft(bits + 1).add(pd);
+        BigInteger dd = pd.shiftLeft(1);
+        BigInteger[] qr = sc.divideAndRemainder(dd);
+        BigInteger f = (qr[1].signum() < 0) ? qr[0].subtract(BigInteger.ONE) : qr[0];
+        return new Q(f, BigInteger.ONE.shiftLeft(bits));
+      }
+      return new Q(pn, pd).round(bits);
+    }
     // nearest multiple of 2^-bits (ties towards +inf)
     Q round(int bits) {
       if (bits >= 0) {
@@ -195,6 +207,19 @@ public class BigRat {
     return new StringValue(String.format("%.6e", bd.doubleValue() == 0.0 || Double.isInfinite(bd.doubleValue()) ? Double.NaN : bd.doubleValue()).replace("NaN", bd.toString()));
   }
 
+  // identity on values; materialises lazily represented functions (FcnLambdaValue) as tuples so that
+  // TLC does not re-evaluate their bodies on every access
+  public static Value RForce(Value v) {
+    if (v instanceof IntValue || v instanceof StringValue || v instanceof BoolValue) return v;
+    Value t = (v instanceof TupleValue) ? v : v.toTuple();
+    if (t == null) return v;
+    Value[] e = ((TupleValue) t).elems;
+    if (e.length == 3 && e[0] instanceof IntValue && e[1] instanceof TupleValue) return t;  // a rational
+    Value[] r = new Value[e.length];
+    for (int i = 0; i < e.length; i++) r[i] = RForce(e[i]);
+    return new TupleValue(r);
+  }
+
   // ---------- kernels ----------
   public static Value RDot(Value u, Value v) {
     Q[] a = decVec(u), b = decVec(v);
@@ -265,9 +290,44 @@ public class BigRat {
     for (int i = 0; i < a.length; i++) { Q s = Q.of(0); for (int j = 0; j < a[i].length; j++) s = s.add(a[i][j].abs()); if (s.cmp(m) > 0) m = s; }
     return enc(m);
   }
-  // Gauss-Jordan inverse with exact arithmetic (first non-zero pivot)
-  public static Value RMatInv(Value A) {
-    Q[][] a = decMat(A); int n = a.length;
+  static boolean isPow2(BigInteger d) { return d.bitLength() == d.getLowestSetBit() + 1; }
+  // exact inverse.  Dyadic matrices (the common case) go through fraction-free Gauss-Jordan
+  // (Bareiss) on integers; anything else through plain Gauss-Jordan over the rationals.
+  static Q[][] inv(Q[][] a) {
+    int n = a.length;
+    int maxsh = 0; boolean dyadic = true;
+    for (int i = 0; i < n && dyadic; i++) for (int j = 0; j < n; j++) {
+      if (!isPow2(a[i][j].d)) { dyadic = false; break; }
+      maxsh = Math.max(maxsh, a[i][j].d.bitLength() - 1);
+    }
+    if (!dyadic) return invGJ(a);
+    // W = [A 2^maxsh | I] as integers
+    BigInteger[][] w = new BigInteger[n][2 * n];
+    for (int i = 0; i < n; i++) for (int j = 0; j < n; j++) {
+      w[i][j] = a[i][j].n.shiftLeft(maxsh - (a[i][j].d.bitLength() - 1));
+      w[i][n + j] = (i == j) ? BigInteger.ONE : BigInteger.ZERO;
+    }
+    BigInteger prev = BigInteger.ONE;
+    for (int k = 0; k < n; k++) {
+      int p = -1;
+      for (int r = k; r < n; r++) if (w[r][k].signum() != 0) { p = r; break; }
+      if (p < 0) throw new RuntimeException("RMatInv: singular matrix");
+      if (p != k) { BigInteger[] t = w[p]; w[p] = w[k]; w[k] = t; }
+      BigInteger piv = w[k][k];
+      for (int i = 0; i < n; i++) if (i != k) {
+        BigInteger f = w[i][k];
+        for (int j = 0; j < 2 * n; j++) w[i][j] = piv.multiply(w[i][j]).subtract(f.multiply(w[k][j])).divide(prev);
+      }
+      prev = piv;
+    }
+    // now W = [d I | d (A 2^maxsh)^-1]  with d = w[i][i] (row swaps are reflected in the right half)
+    Q[][] r = new Q[n][n];
+    Q sc = new Q(BigInteger.ONE.shiftLeft(maxsh), BigInteger.ONE);
+    for (int i = 0; i < n; i++) for (int j = 0; j < n; j++) r[i][j] = new Q(w[i][n + j], w[i][i]).mul(sc);
+    return r;
+  }
+  static Q[][] invGJ(Q[][] a) {
+    int n = a.length;
     Q[][] w = new Q[n][2 * n];
     for (int i = 0; i < n; i++) for (int j = 0; j < n; j++) { w[i][j] = a[i][j]; w[i][n + j] = Q.of(i == j ? 1 : 0); }
     for (int c = 0; c < n; c++) {
@@ -284,10 +344,17 @@ public class BigRat {
     }
     Q[][] inv = new Q[n][n];
     for (int i = 0; i < n; i++) for (int j = 0; j < n; j++) inv[i][j] = w[i][n + j];
-    return encMat(inv);
+    return inv;
+  }
+  public static Value RMatInv(Value A) { return encMat(inv(decMat(A))); }
+  // inverse rounded to a multiple of 2^-bits (entries of the exact inverse are rounded directly)
+  public static Value RMatInvRound(Value A, Value bits) {
+    Q[][] r = inv(decMat(A)); int b = iv(bits);
+    for (int i = 0; i < r.length; i++) for (int j = 0; j < r.length; j++) r[i][j] = r[i][j].round(b);
+    return encMat(r);
   }
   // solve A x = b exactly (A square non-singular); b a matrix (columns = right-hand sides)
   public static Value RMatSolve(Value A, Value B) {
-    return encMat(mm(decMat(RMatInv(A)), decMat(B)));
+    return encMat(mm(inv(decMat(A)), decMat(B)));
   }
 }
